@@ -93,3 +93,37 @@ def summarize(reports):
         solver_seconds=round(sum(o.seconds for o in obs), 3),
         backends=sorted({o.backend for o in obs if o.backend}),
     )
+
+
+# ------------------------------------------------------------------ parallel verification of a contract module
+def _strip(rep):
+    for o in rep.obligations:
+        o.path, o.goal = [], None
+    return rep
+
+
+def _job(args):
+    modname, idx = args
+    import importlib
+    C = importlib.import_module('pv.contracts.' + modname)
+    item = C.FUNCTIONS[idx]
+    if len(item) == 4:
+        q, c, reg, label = item
+    else:
+        (q, c, reg), label = item, (getattr(C, 'LABELS', None) or [''] * len(C.FUNCTIONS))[idx]
+    hooks = C.hooks_for(c) if hasattr(C, 'hooks_for') else None
+    rep = verify_function(C.REL, q, c, hooks=hooks, registry=reg, module_env=getattr(C, 'ENV', None),
+                          prefix='%s::%s%s' % (C.REL, q, '[%s]' % label if label else ''))
+    return _strip(rep)
+
+
+def verify_module(modname, nproc=8):
+    """All functions of pv/contracts/<modname>.py, one process each (z3 terms do not cross process boundaries:
+    obligations come back with verdict, model and timing only)."""
+    import importlib, multiprocessing as mp
+    C = importlib.import_module('pv.contracts.' + modname)
+    jobs = [(modname, i) for i in range(len(C.FUNCTIONS))]
+    if nproc <= 1 or len(jobs) <= 1:
+        return [_job(j) for j in jobs]
+    with mp.get_context('fork').Pool(min(nproc, len(jobs))) as pool:
+        return pool.map(_job, jobs, chunksize=1)
